@@ -40,6 +40,42 @@ type Code struct {
 	pipeActive bool
 }
 
+// codeMark records how far a code object had been built at some point.
+type codeMark struct {
+	instructions int
+	constants    int
+	names        int
+	children     int
+	source       string
+	symbols      *SymbolTable
+	symbolsMark  symbolTableMark
+}
+
+func (c *Code) mark() codeMark {
+	return codeMark{
+		instructions: len(c.instructions),
+		constants:    len(c.constants),
+		names:        len(c.names),
+		children:     len(c.children),
+		source:       c.source,
+		symbols:      c.symbols,
+		symbolsMark:  c.symbols.mark(),
+	}
+}
+
+// rollback discards everything that was added to the code since the mark.
+func (c *Code) rollback(m codeMark) {
+	c.instructions = c.instructions[:m.instructions]
+	c.constants = c.constants[:m.constants]
+	c.names = c.names[:m.names]
+	c.children = c.children[:m.children]
+	c.source = m.source
+	c.symbols = m.symbols
+	c.symbols.rollback(m.symbolsMark)
+	c.loops = nil
+	c.pipeActive = false
+}
+
 func (c *Code) ID() string {
 	return c.id
 }
